@@ -70,6 +70,20 @@ func mkWorld() *world {
 	// the locked coins are really held (balance >= locked is an x/auth invariant)
 	must(bk.MintCoins(ctx, evmtypes.ModuleName, sdk.NewCoins(sdk.NewInt64Coin("ukava", 5))))
 	must(bk.SendCoinsFromModuleToAccount(ctx, evmtypes.ModuleName, addrs[2], sdk.NewCoins(sdk.NewInt64Coin("ukava", 5))))
+	// other denominations for the passthrough clause ("other coins in the same call behave exactly as in the base
+	// bank"): they sort after ukava (usdx), between akava and ukava (busd), and BEFORE akava (aaa, akav, and BTC —
+	// upper case sorts first), so akava is first, in the middle or last of the sorted coins of a call
+	for _, d := range extraDenoms {
+		for _, i := range []int{1, 2, 3, 6} {
+			cs := sdk.NewCoins(sdk.NewInt64Coin(d, 1000000))
+			must(bk.MintCoins(ctx, evmtypes.ModuleName, cs))
+			if w.parties[i].module != "" {
+				must(bk.SendCoinsFromModuleToModule(ctx, evmtypes.ModuleName, w.parties[i].module, cs))
+			} else {
+				must(bk.SendCoinsFromModuleToAccount(ctx, evmtypes.ModuleName, w.parties[i].addr, cs))
+			}
+		}
+	}
 	for _, p := range w.parties {
 		w.blocked = append(w.blocked, bk.BlockedAddr(p.addr))
 	}
@@ -145,7 +159,9 @@ func (w *world) akavaAmount(r *c.Rng, o obs, from int) *big.Int {
 	return x
 }
 
-func coins(u, x *big.Int, extra int64) sdk.Coins {
+var extraDenoms = []string{"usdx", "busd", "aaa", "akav", "BTC"}
+
+func coins(u, x *big.Int, extra int64, extraDenom string) sdk.Coins {
 	cs := sdk.Coins{}
 	if x.Sign() > 0 {
 		cs = cs.Add(sdk.NewCoin("akava", sdkmath.NewIntFromBigInt(x)))
@@ -154,7 +170,7 @@ func coins(u, x *big.Int, extra int64) sdk.Coins {
 		cs = cs.Add(sdk.NewCoin("ukava", sdkmath.NewIntFromBigInt(u)))
 	}
 	if extra > 0 {
-		cs = cs.Add(sdk.NewInt64Coin("usdx", extra))
+		cs = cs.Add(sdk.NewInt64Coin(extraDenom, extra))
 	}
 	return cs
 }
@@ -167,8 +183,8 @@ func (w *world) seq(out *c.Out, seq int, r *c.Rng) {
 	for i := 1; i <= 3; i++ {
 		amt := new(big.Int).Add(new(big.Int).Mul(bi(r.Range(0, 6)), C), r.BigBelow(C))
 		if amt.Sign() > 0 {
-			must(pk.MintCoins(ctx, evmtypes.ModuleName, coins(bi(0), amt, 50)))
-			must(pk.SendCoinsFromModuleToAccount(ctx, evmtypes.ModuleName, w.parties[i].addr, coins(bi(0), amt, 50)))
+			must(pk.MintCoins(ctx, evmtypes.ModuleName, coins(bi(0), amt, 50, "usdx")))
+			must(pk.SendCoinsFromModuleToAccount(ctx, evmtypes.ModuleName, w.parties[i].addr, coins(bi(0), amt, 50, "usdx")))
 		}
 	}
 	nops := c.Budget(40, 120)
@@ -222,11 +238,12 @@ func (w *world) seq(out *c.Out, seq int, r *c.Rng) {
 				u = bi(1)
 			}
 		}
-		other := otherDenoms(bk, ctx, w)
-		if kind == "burn" || other[a] < extra { // the model does not track usdx: only affordable extras
+		extraDenom := c.Pick(r, extraDenoms)
+		other := otherDenoms(bk, ctx, w, extraDenom)
+		if kind == "burn" || other[a] < extra { // the model does not track the other denoms: only affordable extras
 			extra = 0
 		}
-		cs := coins(u, x, extra)
+		cs := coins(u, x, extra, extraDenom)
 		cls, err := kapp.Exec(ctx, func(cx sdk.Context) error {
 			switch kind {
 			case "send":
@@ -277,9 +294,9 @@ func (w *world) seq(out *c.Out, seq int, r *c.Rng) {
 			}
 			// passthrough: other denoms behave exactly as in x/bank (only usdx is used)
 			if extra > 0 && (kind == "send" || kind == "m2a" || kind == "a2m") && a != b {
-				now := otherDenoms(bk, ctx, w)
+				now := otherDenoms(bk, ctx, w, extraDenom)
 				if now[a] != other[a]-extra || now[b] != other[b]+extra {
-					out.Violation(fmt.Sprintf("seq=%d op=%d passthrough usdx not moved exactly", seq, i))
+					out.Violation(fmt.Sprintf("C03 passthrough: %s in the same call not moved exactly as in the base bank seq=%d op=%d", extraDenom, seq, i))
 				}
 			}
 		}
@@ -288,10 +305,10 @@ func (w *world) seq(out *c.Out, seq int, r *c.Rng) {
 
 func otherDenoms(bk interface {
 	GetBalance(sdk.Context, sdk.AccAddress, string) sdk.Coin
-}, ctx sdk.Context, w *world) []int64 {
+}, ctx sdk.Context, w *world, denom string) []int64 {
 	out := make([]int64, len(w.parties))
 	for i, p := range w.parties {
-		out[i] = bk.GetBalance(ctx, p.addr, "usdx").Amount.Int64()
+		out[i] = bk.GetBalance(ctx, p.addr, denom).Amount.Int64()
 	}
 	return out
 }
